@@ -794,11 +794,7 @@ func idAssignments(n int, limit uint64, kinds string) map[string][]uint64 {
 // ---------------------------------------------------------------- the C02 cases
 
 func famLimit(fam string) uint64 {
-	lim := q - 1
-	if fam == "cnf" && lim > 64 {
-		lim = 64 // the CNF code orders clauses through 64-bit sets
-	}
-	return lim
+	return q - 1
 }
 
 func idsLE64(v []uint64) bool {
@@ -1517,7 +1513,7 @@ func runC02(pols []*policy) {
 		case "hier":
 			doTassa(p, secrets, pr)
 		}
-		if idsLE64(p.holders) && len(p.holders) <= 5 {
+		if idsLE64(p.holders) && len(p.holders) <= 5 { // ISN pieces are keyed by 64-bit sets of identifiers
 			doISN(p, secrets[:2])
 		}
 	}
